@@ -400,7 +400,7 @@ func Check() *common.Check {
 		Rule: "the whole lexical space of C04 (all lexeme pairs x 7 (quick) / 43 (thorough) separator classes, reduced triples, every lexeme first/last, keywords, comment catalogue x placement, 3-lexeme multi-line layouts with blank lines, " +
 			"indentation, CRLF, tabs, comments before tokens, multi-line and non-ASCII literals): every token, end marker and comment is checked for 1-based, Start<=End<=next.Start, non-decreasing, inside the input, exact line, " +
 			"exact column on ASCII tab-free lines; all strings of <=3 (quick) / <=4 (thorough) fragments over the 37-fragment alphabet with the reference lexer's offsets as expected spans; error locations: unterminated literal/comment x prefix layouts, every lexeme x every rejected hostile byte x 3 placements, and the first N statements of every sqlgen section " +
-			"(N=40 quick / 150 thorough) x 4 layouts x {control byte, backslash} inserted at every token boundary (tokenizer error) and a stray ']' inserted at every token boundary (ParseFromModelTokensWithPositions error); " +
+			"(N=400 quick / 3000 thorough: every clause option, DML and DDL case in both tiers) x 4 layouts x {control byte, backslash} inserted at every token boundary (tokenizer error) and a stray ']' inserted at every token boundary (ParseFromModelTokensWithPositions error); " +
 			"distinct = distinct case key; non-trivial = multi-line, or containing a comment, tab, non-ASCII character or multi-line literal, or an error-location case",
 		Assume: []string{
 			"lexgen's builder knows the byte offset of everything it places; line = 1 + number of LF before the offset, column = bytes since the last LF + 1",
@@ -538,9 +538,9 @@ func enumerate(e *common.Enum) {
 	}
 
 	// (4)/(5) statements of the model grammar with a rejected byte / a stray ']' at every token boundary
-	perSection := 40
+	perSection := 400 // every clause option, DML and DDL case; a spread of the larger sections
 	if e.Thorough() {
-		perSection = 150
+		perSection = 3000
 	}
 	taken := map[string]int{}
 	seen := map[string]bool{}
